@@ -37,3 +37,10 @@ package limiter
 //@ func stopLimitStoreWithRetry props C13
 //@   modifies storeops
 //@   loop 0: invariant [t] true
+
+//@ func (*rateLimiter).DoAcquire$1 props C08
+//@   modifies *
+//@   ensures [negative_refused] old(limit.Tokens) < 0 ==> result1 != nil && setstatecalls == old(setstatecalls) && tbgranted == old(tbgranted)
+//@   ensures [tb_grant] old(limit.Tokens) >= 0 && result1 == nil && gfcType(flowControl) == "TokenBucket" ==> 0 <= result.Limit && result.Limit <= old(limit.Tokens) && setstatecalls == old(setstatecalls) && tbgranted[flowControl] - old(tbgranted[flowControl]) == (result.Accept ? result.Limit : 0) && forall g ref :: {tbgranted[g]} g != flowControl ==> tbgranted[g] == old(tbgranted[g])
+//@   ensures [inflight_once] old(limit.Tokens) >= 0 && result1 == nil && gfcType(flowControl) == "MaxRequestsInflight" ==> setstatecalls == old(setstatecalls) + 1 && tbgranted == old(tbgranted)
+//@   loop 0: invariant [tok] 0 <= token && token <= limit.Tokens && limit.Tokens == old(limit.Tokens) && !rs.Accept && rs.Limit == 0 && tbgranted == old(tbgranted) && setstatecalls == old(setstatecalls)
